@@ -49,6 +49,15 @@ def strategy_(draw, tier):
     c = draw(volt.volt_config(max_blocks=7, max_m=3, branches=(8, 16), tones=(0, 0), max_antennas=2))
     c['nblocks'] = draw(st.one_of(st.integers(1, 7), st.integers(1, 45)))
     c['bpf'] = draw(st.one_of(st.integers(1, 7), st.integers(1, 45)))
+    if draw(st.integers(0, 4)) == 0:
+        # one full file of many blocks and a partially filled last one (block counts derived from file sizes must stay exact)
+        c['bpf'] = draw(st.integers(20, 49))
+        k_last = draw(st.integers(1, c['bpf'] - 1))
+        # half of these at pairs where the ratio k/bpf does not survive a round trip through double precision
+        hazard = [(k, b) for b in range(20, 50) for k in range(1, b) if int(k / b * b) != k or int(k * (1.0 / b) * b) != k]
+        if draw(st.booleans()):
+            k_last, c['bpf'] = draw(st.sampled_from(hazard))
+        c['nblocks'] = c['bpf'] + k_last
     c['num_chans'] = min(c['num_chans'], 3)
     c['start_chan'] = min(c['start_chan'], c['B'] // 2 - c['num_chans'])
     c['noise_std'] = 1.0
@@ -259,6 +268,9 @@ def run_case(case, ctx):
                 if rh[k].strip() != h0[k].strip():
                     obs.fail('read_header_value', f'{k}: {rh[k]!r} vs {h0[k]!r}')
                     break
+        # the returned dictionary is the caller's: editing it must not leak into later reads of the unchanged file
+        rh['ZZPHANTM'] = '1'
+        rh.pop(next(iter(h0)), None)
     # blimpy's GuppiRaw, the independent reader the property names (its DIRECTIO padding is file-relative, which
     # coincides with header-relative padding when block sizes are multiples of 512)
     # ... and its card parser stops at any key starting with END and splits cards at every '=': only headers it can read
@@ -325,6 +337,9 @@ def run_case(case, ctx):
                 break
     finally:
         raw_utils.glob = saved
+    ok, rh2 = core.call(obs, 'read_header[again]', raw_utils.read_header, files[0])
+    if ok and list(rh2.keys()) != list(per_file[0][0]['header'].keys()):
+        obs.fail('read_header_keys:second_read', f"{len(rh2)} vs {len(per_file[0][0]['header'])}")
     ok, rp = core.call(obs, 'get_raw_params', raw_utils.get_raw_params, stem, c['start_chan'])
     if ok:
         chan_bw = c['sr'] / c['B'] * (1 if c['ascending'] else -1)
